@@ -1,11 +1,27 @@
 /-
   Proofs.C13 — lemmas and proofs behind Props/C13.lean.
+  Helper lemmas: Proofs/C13Seed.lean (`expandDots` / `discardOps`), Proofs/C13Loop.lean (the
+  update loop and the upsert branch).
 -/
 import Spec.Single
 import Spec.Match
+import Proofs.C13Seed
+import Proofs.C13Loop
+
+set_option linter.unusedVariables false
 
 namespace MongoModel.Proofs.C13
 open MongoModel MongoModel.Spec
+
+/-- with a match the `upsert` flag is irrelevant: the two calls are the same call (stronger than
+    `upsert_like_plain_when_matched`: whole state, whole result, errors included) -/
+theorem upsert_eq_plain_when_matched (cfg : Cfg) (now : Int) (c c1 : Coll) (fs : Fields) (u : Val)
+    (multi : Bool) (q : Val × Val) (rest : List (Val × Val))
+    (he : expire now c = .ok c1) (hi : IdInv c) (hg : GoodKeys c)
+    (hs : selectDocs (patchDT (.doc fs)) c1.docs = .ok (q :: rest)) :
+    applyUpdateColl cfg now c (.doc fs) u true multi =
+      applyUpdateColl cfg now c (.doc fs) u false multi :=
+  C13Lemmas.upsert_eq_plain cfg now c c1 fs u multi q rest he hi hg hs
 
 theorem upsert_like_plain_when_matched (cfg : Cfg) (now : Int) (c c1 : Coll) (fs : Fields) (u : Val)
     (multi : Bool) (q : Val × Val) (rest : List (Val × Val))
@@ -15,11 +31,14 @@ theorem upsert_like_plain_when_matched (cfg : Cfg) (now : Int) (c c1 : Coll) (fs
     (applyUpdateColl cfg now c (.doc fs) u true multi).1.docs =
       (applyUpdateColl cfg now c (.doc fs) u false multi).1.docs ∧
     ((applyUpdateColl cfg now c (.doc fs) u true multi).2.toOption.map (fun r => (r.n, r.nModified, r.upserted.isSome)))
-      = ((applyUpdateColl cfg now c (.doc fs) u false multi).2.toOption.map (fun r => (r.n, r.nModified, r.upserted.isSome))) := by sorry
+      = ((applyUpdateColl cfg now c (.doc fs) u false multi).2.toOption.map (fun r => (r.n, r.nModified, r.upserted.isSome))) := by
+  rw [C13Lemmas.upsert_eq_plain cfg now c c1 fs u multi q rest he hi hg hs]
+  exact ⟨rfl, rfl⟩
 
 theorem no_upsert_no_insert (cfg : Cfg) (now : Int) (c c' : Coll) (f u : Val) (multi : Bool)
     (r : UpdateResult) (h : applyUpdateColl cfg now c f u false multi = (c', .ok r)) :
-    r.upserted = none ∧ c'.docs.length ≤ c.docs.length := by sorry
+    r.upserted = none ∧ c'.docs.length ≤ c.docs.length :=
+  C13Lemmas.no_upsert_no_insert_main cfg now c c' f u multi r h
 
 theorem upsert_iff_no_match (cfg : Cfg) (now : Int) (c c1 c' : Coll) (fs : Fields) (u : Val)
     (multi : Bool) (sel : List (Val × Val)) (r : UpdateResult)
@@ -29,10 +48,14 @@ theorem upsert_iff_no_match (cfg : Cfg) (now : Int) (c c1 c' : Coll) (fs : Field
     (h : applyUpdateColl cfg now c (.doc fs) u true multi = (c', .ok r)) :
     (r.upserted.isSome ↔ sel = []) ∧
     (sel = [] → ∃ id d, r.upserted = some id ∧ c'.docs = c1.docs ++ [(id, d)] ∧
-        idOf d = some id ∧ r.n = 1 ∧ r.nModified = 0 ∧ r.updatedExisting = false) := by sorry
+        idOf d = some id ∧ r.n = 1 ∧ r.nModified = 0 ∧ r.updatedExisting = false) :=
+  C13Lemmas.upsert_iff_no_match_main cfg now c c1 c' fs u multi sel r he hne hn hi hg hs h
 
 theorem upsert_result (r : UpdateResult) (id : Val) (h : r.upserted = some id) (hn : id ≠ .null) :
-    updateOut r = .doc [("matched", .int 0), ("modified", .int r.nModified), ("upserted", id)] := by sorry
+    updateOut r = .doc [("matched", .int 0), ("modified", .int r.nModified), ("upserted", id)] := by
+  unfold updateOut
+  rw [h]
+  cases id <;> first | exact absurd rfl hn | rfl
 
 theorem seed_plain_equalities (ss : Fields) (hk : ss.all (fun kv => !kv.1.toList.contains '.' && !kv.1.startsWith "$") = true)
     (hd : (dkeys ss).Nodup) :
@@ -42,15 +65,47 @@ theorem seed_plain_equalities (ss : Fields) (hk : ss.all (fun kv => !kv.1.toList
     (∀ k ops, dget k ss = some (.doc ops) → isOps ops = true → dget "$eq" ops = none →
         dget k (match (discardOps (.doc ss)).1 with | .doc fs => fs | _ => []) = none) ∧
     (∀ k x, dget k ss = some (.doc [("$eq", x)]) →
-        dget k (match (discardOps (.doc ss)).1 with | .doc fs => fs | _ => []) = some x) := by sorry
+        dget k (match (discardOps (.doc ss)).1 with | .doc fs => fs | _ => []) = some x) := by
+  refine ⟨?_, C13Lemmas.seed_plain ss hk hd⟩
+  apply C13Lemmas.expandDots_plain ss _ hd
+  intro kv hm
+  have := List.all_eq_true.1 hk kv hm
+  simp only [Bool.and_eq_true, Bool.not_eq_true'] at this
+  exact this.1
 
 theorem seed_expands_dots (a b : String) (v : Val)
     (ha : a.toList.contains '.' = false) (hb : b.toList.contains '.' = false)
     (hna : a ≠ "") (hnb : b ≠ "") :
-    expandDots [(a ++ "." ++ b, v)] = .ok [(a, .doc [(b, v)])] := by sorry
+    expandDots [(a ++ "." ++ b, v)] = .ok [(a, .doc [(b, v)])] :=
+  C13Lemmas.expandDots_two a b v ha hb
 
 theorem setOnInsert_only_on_insert (spec now body : Val) (d : Val) :
     applyUpdate spec (.doc [("$setOnInsert", body)]) now false d = .ok d ∧
-    applyUpdate spec (.doc [("$setOnInsert", body)]) now true d = updateFields .set now body d := by sorry
+    applyUpdate spec (.doc [("$setOnInsert", body)]) now true d = updateFields .set now body d := by
+  have h1 : updaterOf "$setOnInsert" = none := by decide +kernel
+  constructor
+  · simp [applyUpdate, applyOps, h1]
+  · simp only [applyUpdate, applyOps, h1]
+    simp only [show ("$setOnInsert" = "$rename") = False by decide, if_false, if_true, Bool.not_true,
+      Bool.false_eq_true, bind, Except.bind]
+    cases updateFields .set now body d <;> rfl
+
+/-! ### non-vacuity: the hypotheses of `upsert_iff_no_match` / `upsert_like_plain_when_matched`
+    hold on a concrete collection -/
+
+def exColl : Coll := { docs := [(.int 1, .doc [("_id", .int 1), ("a", .int 1)])] }
+
+theorem exColl_hyps : expire 0 exColl = .ok exColl ∧ exColl.docs ≠ [] ∧ exColl.ttlIndexes = [] ∧
+    IdInv exColl ∧ GoodKeys exColl := by
+  refine ⟨rfl, by simp [exColl], rfl, ⟨?_, ?_⟩, ?_⟩
+  · simp [KeysDistinct, exColl]
+  · intro p hp
+    simp only [exColl, List.mem_singleton] at hp
+    subst hp
+    exact ⟨.int 1, rfl, by decide +kernel⟩
+  · intro p hp
+    simp only [exColl, List.mem_singleton] at hp
+    subst hp
+    exact ⟨C05Lemmas.scalar_symm' _ rfl, by decide +kernel⟩
 
 end MongoModel.Proofs.C13
